@@ -2,7 +2,7 @@
 import numpy as np
 from hypothesis import strategies as st
 
-from checks.common import as_layout, S, Raised, call, diameter, perm_from_noise
+from checks.common import as_layout, call, diameter, perm_from_noise, points_form_relation, Raised, S
 from gen import curved, points, zoo
 from harness.runner import Clause
 from oracle import geom
@@ -77,6 +77,7 @@ def _finish(rec, shape, P, kinds, want, dist, size, sig, case):
         gp = call(shape.is_inside, P[p].copy())
         okp = not isinstance(gp, Raised) and np.asarray(gp).shape == (n,) and np.array_equal(np.asarray(gp)[safe[p]], got[p][safe[p]])
         rec.check(okp, "permuted_batch", sig)
+    points_form_relation(rec, shape, P, got, safe, dist, size, sig, case.get("single", 0) // 4)
     near = bool(np.any(safe & (dist < 0.05 * size)))
     rec.label("near_boundary" if near else None, "aligned" if np.any(kinds == 2) else None, "batch%d" % n)
     return near or bool(np.any(kinds == 2))
